@@ -22,7 +22,9 @@ RULE = ("per generated class (DeclGen over the whole field vocabulary incl. unty
         "(modelled: `owned`); the trusted short cuts (direct_trusted_mapping via Deserializer / deserialize_structure on "
         "every generated class and on 7 hand-built class shapes with enum.Enum-backed Enum fields, nested classes, arrays "
         "of nested classes x 4 mappers; from_trusted_data mapping / kwargs; trust_supplied_values: argument snapshots only); "
-        "one direct probe per public entry point outside the operation streams (harness/suites/alias_api.py); plus one "
+        "one direct probe per public entry point outside the operation streams (harness/suites/alias_api.py); schema streams "
+        "over the ext field kinds AND user-defined SerializableField / Field subclasses with a pass-through serialize and "
+        "mutable dict / list defaults; plus one "
         "directed witness case per (operation, table site) (~560).  Per case on the real code: deep snapshot of every argument before/after (failing calls included); "
         "`is`-identity comparison of the source object graph with the produced/kept graph; poke oracle = every native "
         "mutator (introspected from the runtime type: list/dict/deque/set members found by probing the native type, "
